@@ -9,15 +9,15 @@ TECH = "explicit TLA+ specification checked by TLC, bound to the code by "
 
 CLAIMS = {
  "C01": dict(cat="model_checking",
-   text="Conn.tla models exec / recv / closeWithError / the node one critical section or channel operation per action; TLC checks NoMisroute and NoReuseWhileOutstanding (plus the C06 invariants) on every interleaving and fault placement of a bounded instance (2 requests x 2 stream ids, 3 requests in the thorough tier; cancellation, build failure, write failure, node close, external close, silent node, timer). Free-running executions of a real connection (8-16 callers, protocol 2 and 4, answers out of order / late / never / withheld until the id is seen again, unsolicited frames, stream exhaustion, coalescing, failures) are logged through hooks, the scripted node and the callers with one global sequence and the property invariants are evaluated by TLC on every recorded step.",
+   text="Conn.tla models exec / recv / closeWithError / the node one critical section or channel operation per action; TLC checks NoMisroute and NoReuseWhileOutstanding (plus the C06 invariants) on every interleaving and fault placement of a bounded instance (2 requests x 2 stream ids, 3 requests in the thorough tier; cancellation, build failure, write failure, node close, external close, silent node, timer). Free-running executions of a real connection (8-16 callers, protocol 2 and 4, answers out of order / late / never / withheld until the id is seen again, unsolicited frames, stream exhaustion, coalescing, failures) are logged through hooks, the scripted node and the callers with one global sequence and the property invariants are evaluated by TLC on every recorded step, incl. ResponseReaches (a response the receiver has in hand before its caller waits, or the answer to a written request discarded as 'no handler') and TimeoutHonoured (no timeout outcome before Timeout can have elapsed); gate scenarios force the interleavings TLC's counterexamples and the seeded changes pointed at (closer vs give-up, late answers, a frame before addCall, cancellation / deadline while the writer is blocked, an answer during a stalled coalesced flush, handshake faults).",
    note="Bounded model; the in-memory FIFO pipe stands for TCP; the token echoed by the scripted node identifies the origin of a response; real executions are sampled (seeded), not exhaustive.",
    tech=TECH + "TLC evaluation of the property invariants on traces recorded from the real connection", ref="DESIGN.md section 7 C01"),
  "C06": dict(cat="model_checking",
-   text="Same module as C01. TLC checks OutcomeOnce, OutcomeAllowed, ReleaseOnce, Conservation, NoLeak as invariants / action properties and RequestEnds, CloseReturns, CloseUnblocks as liveness under weak fairness of every driver thread (no state constraint), with deadlock detection. On recorded executions of a real connection TLC evaluates: one allowed outcome per call, every call returns (8 s watchdog = 200x the driver timeout), Close returns, each stream released at most once, observer finished/abandoned at most once, and at event-based quiescence AvailableStreams equals capacity minus the requests whose answer never came (both leak and over-release are flagged).",
+   text="Same module as C01. TLC checks OutcomeOnce, OutcomeAllowed, ReleaseOnce, Conservation, NoLeak as invariants / action properties and RequestEnds, CloseReturns, CloseUnblocks as liveness under weak fairness of every driver thread (no state constraint), with deadlock detection. On recorded executions of a real connection TLC evaluates: one allowed outcome per call, every call returns (8 s watchdog = 200x the driver timeout), Close returns, each stream released at most once, observer finished/abandoned at most once, and at event-based quiescence AvailableStreams equals capacity minus the requests whose answer never came (both leak and over-release are flagged). The heartbeat is a modelled thread (its OPTIONS request runs through the same exec actions; HBStops, HBCloseJustified) and is paced at 1-3 ms in dedicated scenarios (answers prompt / late / never / ERROR / unparsable / wrong kind; a dead node makes it close the connection); TimeoutLimit is modelled (the caller past the limit closes the connection itself) and driven in scenarios that run alone. The wait for schema agreement that ends a schema-changing statement is evaluated with SchemaAgree.tla (cancellation and MaxWaitSchemaAgreement honoured).",
    note="Liveness is proved for the bounded model under fairness; on the real code it is observed with watchdogs. Numeric real-time bounds are not proved.",
    tech=TECH + "TLC evaluation of safety invariants on recorded traces; TLC liveness checking of the model", ref="DESIGN.md section 7 C06"),
  "C07": dict(cat="model_checking",
-   text="Writer.tla models deadlineContextWriter and writeCoalescer (semaphore, enqueue, flush with the byte-count attribution loop, a socket that accepts any prefix, the later closeWithError of the failing caller); TLC checks WholeFrames, NothingAfterPartial, OkImpliesWhole, NotStartedNoBytes, CountExact on all interleavings of 3 writers and shows that without the refuse-after-torn rule a whole frame can follow a torn one. Every bounded (mode, frame sizes <= 3x3, failure offset) case is executed on the real writers and the recorded results, byte stream and the fate of a further write are validated by TLC; concurrent writers over a byte-at-a-time yielding socket and the byte streams of real connections (concurrent requests, coalescing, injected write failure; frames expected by an independent encoder) are validated by TLC as well.",
+   text="Writer.tla models deadlineContextWriter and writeCoalescer (semaphore, enqueue, flush with the byte-count attribution loop, a socket that accepts any prefix, the later closeWithError of the failing caller); TLC checks WholeFrames, NothingAfterPartial, OkImpliesWhole, NotStartedNoBytes, CountExact on all interleavings of 3 writers and shows that without the refuse-after-torn rule a whole frame can follow a torn one. Every bounded (mode, frame sizes <= 3x3, failure offset) case is executed on the real writers and the recorded results, byte stream and the fate of a further write are validated by TLC; concurrent writers over a byte-at-a-time yielding socket and the byte streams of real connections (concurrent requests, coalescing, injected write failure; frames expected by an independent encoder) are validated by TLC as well. The coalescer is modelled at its flusher's grain (refuse on receipt / append and arm / timer fires: flush, broken = result of that flush; the variant in which a refused request arms the timer is refuted) and the case replay drives the real flusher with a faithful timer and two further writes a window apart; sockets also report context-like errors, 'closed' means the socket, and gate scenarios cover a context that ends while the writer is blocked behind a stalled write.",
    note="Sockets are modelled as accepting a prefix and then failing; frame sizes in the exhaustive replay are tiny (the logic is size-independent); real connections are sampled.",
    tech=TECH + "exhaustive TLC-generated case replay into the real writers and TLC validation of recorded byte streams", ref="DESIGN.md section 7 C07"),
  "C08": dict(cat="model_checking",
